@@ -77,7 +77,7 @@ def replay_state(st):
     # condition: shrinking the ordinary fit towards the lower bounds stays admissible for a while and has a smaller
     # variance; the result must not be worse than the best such probe point.
     BIG = 0.05
-    rows_big = [k for k, r in enumerate(recs) if r["zero"]][:6]
+    rows_big = [k for k, r in enumerate(recs) if r["zero"]][:4] + [k for k, r in enumerate(recs) if not r["zero"]][:4]
     if rows_big:
         try:
             Xb, Bpb, _ = est.minimize_variance(B[rows_big].copy(), l2_eps=BIG, Epsilon=("heteroscedastic" if ek == "hetero" else E.copy()))
@@ -85,14 +85,16 @@ def replay_state(st):
                 r = recs[k]
                 x1 = np.asarray(r["x1"], float) / r["x1den"] / D
                 best = None
+                qs = (np.asarray(r["q"], float) / r["qden"] + np.asarray(s["blN"], float)) / (D * DK)
+                nstar = float(np.linalg.norm(qs - B[k]))      # best achievable error (0 for in-gamut targets)
                 for t in np.linspace(0, 1, 201):
                     y = lb + (x1 - lb) * (1 - t)
-                    if np.linalg.norm(Kmat @ (A @ y + blv) - B[k]) <= BIG * 0.98:
+                    if np.linalg.norm(Kmat @ (A @ y + blv) - B[k]) <= nstar + BIG * 0.98:
                         v = float(epsv @ y ** 2)
                         best = v if best is None else min(best, v)
                 got = float(epsv @ np.asarray(Xb, float)[j] ** 2)
                 pred = Kmat @ (A @ np.asarray(Xb, float)[j] + blv)
-                if np.linalg.norm(pred - B[k]) > BIG + 1e-3:
+                if np.linalg.norm(pred - B[k]) > nstar + BIG + 1e-3:
                     bad.append(("C09.fit-quality", dict(variant="large-tolerance", **where0), BIG, float(np.linalg.norm(pred - B[k])), r))
                 if best is not None and got > best * 1.02 + 1e-3:
                     bad.append(("C09.minimal-variance", dict(variant="large-tolerance", **where0), best, got, r))
